@@ -204,6 +204,18 @@ def finalize(ctx: Ctx, tier: str, seed: int, t0: float, level_text: str,
         'checker_cmd': f'/venv/bin/python -m sa.check {prop}' + (' --thorough' if tier == 'thorough' else ''),
         'analysis_errors': errors,
     }
+    try:
+        from .cfg import default_model, _cfg_cache
+        rm = default_model(ctx.program)
+        coverage['raise_model'] = {'table_hits': dict(sorted(rm.table_hits.items())),
+                                   'unknown_callees_treated_as_total': dict(sorted(rm.unknown_callees.items())),
+                                   'package_summaries': {f'{k[0]}:{k[1]}': {'escaping': sorted(v[0]), 'may_suspend': v[1]}
+                                                         for k, v in sorted(rm._summaries.items())}}
+        coverage['cfgs_built'] = {'functions': len(_cfg_cache),
+                                  'nodes': sum(len(g.nodes) for g in _cfg_cache.values()),
+                                  'edges': sum(sum(len(v) for v in g.succ.values()) for g in _cfg_cache.values())}
+    except Exception:  # pragma: no cover
+        pass
     coverage.update(ctx.extra)
     ev = {
         'property_id': prop, 'tier': tier, 'seed': seed, 'level': 'other',
